@@ -9,7 +9,7 @@
 
    H = arbitrary application handlers, flt = arbitrary address filter, tr = plain TCP or TLS with
    any minimum version / certificate mode / optional authorization policy, m = any max_sessions,
-   us = any unit map; evs = ANY list of front-end events (accepts from any address by peers that
+   us = any unit configuration (unit id -> handler object -> state); evs = ANY list of front-end events (accepts from any address by peers that
    talk Modbus in clear, stay silent or start a TLS handshake with any offer and certificate;
    handshake completions; frames; session ends; commands; shutdown; handle drop). *)
 From Coq Require Import NArith List Bool String.
@@ -52,6 +52,28 @@ Theorem Front_served_iff : forall (St : Type) (H : handler St) flt tr (f : front
    (alive (srv f) id = true /\ exists c a, find_conn id (conns f) = Some c /\ c_phase c = Serving a)).
 Proof. exact @front_served_step. Qed.
 Print Assumptions Front_served_iff.
+
+(* ... and the "if" direction, in two steps: a connection from an admitted address arriving while the
+   server runs gets a session of its own (also at the limit), waiting in the handshake (TLS) or served
+   at once (plain TCP); when its handshake completes while it is still a running session and the
+   admission Spec accepts the peer, it is served from then on with exactly that authorization (and by
+   Front_served_iff every frame it sends while alive is processed) *)
+Theorem Front_accept_admitted : forall (St : Type) (H : handler St) flt tr m us evs (f : front) o addr pk f' o',
+  frun H flt tr (finit m us) evs = Some (f, o) -> running (srv f) = true -> admits flt addr ->
+  fstep H flt tr f (FAccept addr pk) = Some (f', o') ->
+  let id := next_id (trk (srv f)) in
+  alive (srv f') id = true /\
+  find_conn id (conns f') = Some {| c_id := id; c_addr := addr; c_peer := pk;
+                                    c_phase := match tr with PlainTcp => Serving NoAuth | TlsTransport _ _ _ => Handshaking end |}.
+Proof. exact @front_accept_admitted. Qed.
+Print Assumptions Front_accept_admitted.
+
+Theorem Front_handshake_establishes : forall (St : Type) (H : handler St) flt tr (f : front) id c a f' o,
+  find_conn id (conns f) = Some c -> c_phase c = Handshaking -> c_peer c <> PeerSilent -> alive (srv f) id = true ->
+  establish tr (c_peer c) = Some a -> fstep H flt tr f (FHandshakeDone id) = Some (f', o) ->
+  srv f' = srv f /\ find_conn id (conns f') = Some {| c_id := c_id c; c_addr := c_addr c; c_peer := c_peer c; c_phase := Serving a |}.
+Proof. exact @front_handshake_establishes. Qed.
+Print Assumptions Front_handshake_establishes.
 
 (* Front_role: every authorization query made on behalf of a connection carries exactly the role the
    handshake extracted from the certificate that connection presented; queries exist only in
